@@ -7,6 +7,7 @@ Registry for viral attribute propagation rules as defined by the VTL 2.2
 in :mod:`vtlengine.ViralPropagation.sql`.
 """
 
+from contextvars import ContextVar
 from dataclasses import dataclass, field
 from typing import Any, Dict, List, Optional
 
@@ -70,20 +71,24 @@ class ViralPropagationRegistry:
         self._valuedomain_rules.clear()
 
 
-# Module-level accessor for operators to use.
-# The Interpreter sets this at the start of each run() call.
-_current_registry: Optional[ViralPropagationRegistry] = None
+# Context-local accessor for operators to use.
+# The Interpreter sets this at the start of each run() call. The registry is kept in a
+# ContextVar (one value per thread / asyncio task) so that concurrent API calls do not see
+# each other's viral propagation rules.
+_current_registry: ContextVar[Optional[ViralPropagationRegistry]] = ContextVar(
+    "vtlengine_viral_propagation_registry", default=None
+)
 
 
 def get_current_registry() -> ViralPropagationRegistry:
     """Get the current viral propagation registry."""
-    global _current_registry  # noqa: PLW0603
-    if _current_registry is None:
-        _current_registry = ViralPropagationRegistry()
-    return _current_registry
+    registry = _current_registry.get()
+    if registry is None:
+        registry = ViralPropagationRegistry()
+        _current_registry.set(registry)
+    return registry
 
 
 def set_current_registry(registry: ViralPropagationRegistry) -> None:
     """Set the current viral propagation registry (called by Interpreter)."""
-    global _current_registry  # noqa: PLW0603
-    _current_registry = registry
+    _current_registry.set(registry)
